@@ -1,4 +1,5 @@
 import Heph.Proofs.TransKotlinHistory
+import Heph.Generated.TransWrites
 /-!
 # C11 — translation is a pure function of the program (Kotlin translator modelled)
 
@@ -115,6 +116,69 @@ theorem translate_twice (package : Option String) (p : Program) :
 theorem history_independent_from (ob : Obj) (h : ob.st.ident = 0) (ps : List Program) (p : Program) :
     text (after ob ps) p = text ob p :=
   text_agree (after_agree ps ob h) p
+
+/-! ## the translators write only their own attributes (table regenerated from `src/translators/*.py`
+    by `harness/regen_c11.py` on every run of the check) -/
+
+/-- a store is admissible when its target starts at `self`, or at a local name that the same function
+    bound to a freshly constructed translator (`translator = JavaTranslator(…)` in
+    `construct_constructor`) -/
+def writeOK (w : String × String × Nat × String × String) : Bool :=
+  w.2.2.2.1 == "self" ||
+  Generated.transLocalCtor.any fun c => c.1 == w.1 && c.2.1 == w.2.1 && c.2.2.2.1 == w.2.2.2.1 && c.2.2.1 ≤ w.2.2.1
+
+/-- every attribute store / item store / `del` in `src/translators` writes an attribute of the
+    translator object itself (or of a translator object the function has just constructed), and no
+    mutating container method is called on an object reached from a parameter: the translators never
+    write into the program, the context or a type -/
+theorem translators_write_self_only :
+    Generated.transWrites.all writeOK = true ∧ Generated.transMutCalls = [] := by
+  constructor <;> decide +kernel
+
+/-- look-up in the regenerated attribute tables -/
+def attrsOf (tbl : List (String × List String)) (k : String) : List String :=
+  (tbl.find? (·.1 == k)).map (·.2) |>.getD []
+
+/-- the attributes a translation run can change: stored to / mutated anywhere in the class or by the
+    module-level decorators of its file, outside `__init__` and `_reset_state` -/
+def mutableAttrs (cls file : String) : List String :=
+  attrsOf Generated.transSelfMutAttrs cls ++ attrsOf Generated.transSelfMutAttrs (file ++ ":<module>")
+
+/-- the full-strength statement of the design: `__init__` and `_reset_state` assign the same attributes -/
+def reset_complete : Prop :=
+  ∀ cls ∈ ["JavaTranslator", "GroovyTranslator"],
+    attrsOf Generated.transInitAttrs cls = attrsOf Generated.transResetAttrs cls
+
+/-- …is false as written: `__init__` also stores configuration that is never changed afterwards
+    (`_generator`; `always_cast_ftypes`, `always_cast_numbers`) -/
+theorem reset_complete_counterexample : ¬ reset_complete := by
+  intro h; exact absurd (h "JavaTranslator" (by decide)) (by decide +kernel)
+
+/-- what holds and what history independence needs: for the two translators that reset themselves,
+    (1) `visit_program` calls `_reset_state`, (2) every attribute that a translation run can change —
+    other than `program`, which `visit_program` overwrites itself — is re-initialised by `_reset_state`,
+    (3) `_reset_state` assigns nothing that `__init__` does not, and (4) the attributes only `__init__`
+    assigns are never stored to afterwards -/
+theorem reset_complete_partial :
+    ∀ cf ∈ [("JavaTranslator", "java.py"), ("GroovyTranslator", "groovy.py")],
+      (Generated.transResetCalls.any fun c => c.1 == cf.2 && c.2.1 == cf.1 ++ ".visit_program") = true ∧
+      ((mutableAttrs cf.1 cf.2).all fun a => a == "program" || (attrsOf Generated.transResetAttrs cf.1).contains a) = true ∧
+      ((attrsOf Generated.transResetAttrs cf.1).all fun a => (attrsOf Generated.transInitAttrs cf.1).contains a) = true ∧
+      ((attrsOf Generated.transInitAttrs cf.1).all fun a =>
+          (attrsOf Generated.transResetAttrs cf.1).contains a || !(mutableAttrs cf.1 cf.2).contains a) = true := by
+  decide +kernel
+
+/-- Kotlin and Scala have no `_reset_state` call in `visit_program`; there the attributes a run can
+    change are exactly the state of the model plus `_children_res`, `program` (Kotlin: theorem
+    `visit_state` is about all of them) -/
+theorem kotlin_mutable_attrs :
+    mutableAttrs "KotlinTranslator" "kotlin.py" =
+      ["_cast_integers", "_children_res", "context", "ident", "is_lambda", "is_unit", "program", "_nodes_stack"] ∧
+    mutableAttrs "ScalaTranslator" "scala.py" = mutableAttrs "KotlinTranslator" "kotlin.py" := by
+  constructor <;> decide +kernel
+
+example : writeOK ("java.py", "JavaTranslator.visit_class_decl.construct_constructor", 468, "translator", "context") = true := by decide
+example : writeOK ("java.py", "JavaTranslator.visit_class_decl", 468, "node", "name") = false := by decide
 
 /-! ## non-vacuity: a small concrete program -/
 
